@@ -250,7 +250,9 @@ func c15BaseUnits(ctx *core.Ctx) []core.Unit {
 		r.Note("flavour", c15Flavour())
 		els := c15Elements(ctx.Seed, ctx.Thorough())
 		half := new(big.Int).Rsh(new(big.Int).Sub(bigR, bi(1)), 1)
-		exps := []*big.Int{bi(0), bi(1), bi(2), new(big.Int).Sub(bigR, bi(1)), new(big.Int).Sub(bigR, bi(2)), half, pow2(64)}
+		exps := []*big.Int{bi(0), bi(1), bi(2), new(big.Int).Sub(bigR, bi(1)), new(big.Int).Sub(bigR, bi(2)), half, pow2(64),
+			pow2(63), new(big.Int).Sub(pow2(64), bi(1)), new(big.Int).Add(pow2(64), bi(1)), new(big.Int).Add(pow2(128), bi(5)), new(big.Int).Add(pow2(192), pow2(63)),
+			pow2(127), pow2(128), pow2(191), pow2(192), pow2(252), new(big.Int).Add(pow2(192), bi(1)), bigR, new(big.Int).Add(bigR, bi(3)), new(big.Int).Lsh(bigR, 1), pow2(256), new(big.Int).Add(pow2(320), bi(7))}
 		for _, a := range els {
 			in := fmt.Sprintf("x=mont%x", a.e[:])
 			r.Evals += 20
